@@ -15,16 +15,42 @@ ID = "C06"
 RULE = ("product explorer: for every set of <= k non-zero cells of the shape (distinct signed values) EVERY stored order "
         "(all k! permutations) of each operand is built as a real sptensor and every operation of the catalogue is run; "
         "the canonical observation (expanded array / scalar / subscript->value mapping) must be identical across all "
-        "orders (one outcome per (operand sets, operation)) and every sparse result well-formed.  Non-trivial: an operand "
-        "with >= 2 stored entries (so that >= 2 distinct orders collide on the same cells).")
+        "orders (one outcome per (operand sets, operation)) and every sparse result well-formed.  Scalar arguments range over "
+        "a scalar-TYPE alphabet (int, float, np.float64 | np.float32, np.int64, np.uint8) x {zero, non-zero}; assignment keys "
+        "over a per-mode index-FORM alphabet (int, full / prefix / suffix slice, descending list, list and ndarray naming an "
+        "index twice), all modes crossed.  Non-trivial: an operand with >= 2 stored entries (so that >= 2 distinct orders "
+        "collide on the same cells).")
 ASSUMPTIONS = ["canonical observation drops only the stored order of the RESULT (which the property does not constrain)",
-               "outputs documented as indexed by an operand's stored order (mask/extract by W's rows, find) are observed as mappings"]
+               "outputs documented as indexed by an operand's stored order (mask/extract by W's rows, find) are observed as mappings",
+               "Python numbers and their subclasses (np.float64) are 'a scalar' and must be accepted; for the other numpy scalar "
+               "types a rejection (AssertionError/TypeError/ValueError) is a legal outcome - the receiver it leaves behind is then "
+               "observed instead - but an accepted one must yield a well-formed, order-independent result",
+               "tuples nested inside a region key and bare lists / 1-d arrays on a 1-way tensor are not index forms (subdims and the "
+               "linear-assignment clause of the documentation reject them)"]
 BOUNDS = {
     "quick": "shapes (2,2),(4,),(2,1,2): all sets of <=3 non-zero cells x all k! orders (41 (set,order) pairs per shape); "
-             "binary ops on all 1681 pairs; ~45 unary/structural operation instances; from_aggregator/sptenmat ctor over all orders",
-    "thorough": "adds shapes (2,3),(3,2),(1,2,3) with all sets of <=4 non-zero cells x all k! orders (binary ops: sets <=3 x <=3 plus 4 x <=2)",
+             "binary ops on all 1681 pairs (sparse right-hand-side assignment under all 2^N {slice, descending list} keys); ~45 "
+             "unary/structural operation instances + 15 scalar operator forms x 12 (type, value) scalars; from_aggregator/sptenmat "
+             "ctor over all orders; assign: all region keys (product of 5 (size 1) / 8 (size >= 2) index forms per mode: 8, 64, 320 "
+             "keys) and 3 subscript-array keys (distinct rows, a row repeated, bare 1-way int/slice) x 6 scalar types x {0, 5}, "
+             "plus float / int value vectors",
+    "thorough": "adds shapes (2,3),(3,2),(1,2,3) with all sets of <=4 non-zero cells x all k! orders (binary ops: sets <=3 x <=3 "
+                "plus 4 x <=2; assign lattice: sets <=3)",
 }
 CHUNK = 4
+
+# Scalar-type alphabet: (name, native).  "native" = Python numbers and their subclasses (np.float64 is a float): the
+# library documents "a scalar" and must accept them.  The other numpy scalar types are FOREIGN: the library may reject them
+# (AssertionError / TypeError / ValueError) - then the receiver must be left well-formed and the same for every stored
+# order - or accept them - then the result obeys the property like any other result.  Values used: 0 and a non-zero.
+SCALAR_TYPES = [("int", True), ("float", True), ("float64", True), ("float32", False), ("int64", False), ("uint8", False)]
+_SCALAR_CTOR = {"int": int, "float": float, "float64": np.float64, "float32": np.float32, "int64": np.int64, "uint8": np.uint8}
+_REJECTIONS = (AssertionError, TypeError, ValueError)
+
+
+def _scalar(tname, v):
+    return _SCALAR_CTOR[tname](v)
+
 
 VA = [3.0, -5.0, 7.0, -9.0, 11.0, -13.0]
 VB = [3.0, 5.0, -14.0, -9.0, 22.0, 13.0]   # equal to VA at cells 0 and 3, exactly cancelling at cells 1 and 5, different elsewhere
@@ -53,6 +79,11 @@ def gen_cases(tier, seed):
         for sa in sets:
             if sa:
                 yield {"check": "ctor", "shape": list(shape), "A": list(sa)}
+        for sa in sets:
+            if len(sa) > 3:
+                continue
+            for k0 in range(-1, _n_k0(shape)):
+                yield {"check": "assign", "shape": list(shape), "A": list(sa), "k0": k0}
 
 
 def run_case(case, ctx):
@@ -233,7 +264,121 @@ def _unary_ops(shape):
         key = tuple(0 if m == 0 else slice(None) for m in range(N))
         ops.append(("write_region_zero", "sptensor.__setitem__", w_seq([(key, 0.0)])))
         ops.append(("write_region_val", "sptensor.__setitem__", w_seq([(key, 2.0)])))
+    # scalar operator forms over the numpy members of the scalar-type alphabet (the Python members are above)
+    for tname, native in SCALAR_TYPES:
+        if tname in ("int", "float"):
+            continue
+        for v in (0, 2):
+            for name in list(spops.BINOPS) + list(spops.RBINOPS):
+                ap = (spops.BINOPS.get(name) or spops.RBINOPS.get(name))[0]
+                allow = spops.explicit_zero_allowed(name, "scalar")
+                fn = (lambda ap, tname, v, allow: lambda S: canon(ap(S, _scalar(tname, v)), allow))(ap, tname, v, allow)
+                if native:
+                    ops.append((f"{name}_scalar", spops.OPNAME[name], fn))
+                else:
+                    ops.append((f"{name}_scalar_foreign", spops.OPNAME[name], _or_rejected(fn)))
     return ops
+
+
+def _or_rejected(fn):
+    """Foreign scalar types: a rejection is a legal outcome; what is observed then is the receiver it leaves behind."""
+    def g(*operands):
+        try:
+            return fn(*operands)
+        except _REJECTIONS:
+            return ("REJECTED", canon(operands[0], False))
+    return g
+
+
+# ---------------------------------------------------------------------------
+# assignment lattice: key forms x scalar types
+
+
+def _index_forms(n):
+    """Per-mode index forms of a region key for a mode of size n (JSON-able)."""
+    forms = [["int", 0]]
+    if n >= 2:
+        forms.append(["int", n - 1])
+    forms.append(["slice", None, None])
+    if n >= 2:
+        forms.append(["slice", 0, 1])
+        forms.append(["slice", 1, None])
+    forms.append(["list", list(range(n - 1, -1, -1))])      # every index once, not ascending
+    forms.append(["list", [0, 0]])                           # one index named twice
+    forms.append(["array", [n - 1, 0, n - 1]])               # ndarray; repeated, not adjacent, not sorted
+    return forms
+
+
+def _real_index(f):
+    if f[0] == "int":
+        return int(f[1])
+    if f[0] == "slice":
+        return slice(f[1], f[2])
+    if f[0] == "list":
+        return list(f[1])
+    return np.array(f[1], dtype=int)
+
+
+def _n_k0(shape):
+    return len(_index_forms(shape[0]))
+
+
+def _assign_ops(shape, k0):
+    """k0 >= 0: region keys whose mode-0 index is form k0 (all forms in the other modes) x every (scalar type, value);
+    k0 == -1: subscript-array keys (distinct rows / a repeated row) x every (scalar type, value) and value vectors,
+    plus the bare (non-tuple) int / slice keys of a 1-way tensor."""
+    import warnings
+
+    N = len(shape)
+    cl = rm.cells(tuple(shape))
+    ops = []
+
+    def w(mk_key, mk_val):
+        def f(S):
+            with warnings.catch_warnings():
+                warnings.simplefilter("ignore")
+                S[mk_key()] = mk_val()
+            return canon(S, allow_zero=False)
+        return f
+
+    def scalar_ops(prefix, mk_key):
+        for tname, native in SCALAR_TYPES:
+            for v in (0, 5):
+                name = prefix + ("_zero" if v == 0 else "_val") + ("" if native else "_foreign")
+                fn = w(mk_key, (lambda tname, v: lambda: _scalar(tname, v))(tname, v))
+                ops.append((name, "sptensor.__setitem__", fn if native else _or_rejected(fn)))
+
+    if k0 >= 0:
+        per_mode = [[_index_forms(shape[0])[k0]]] + [_index_forms(s) for s in shape[1:]]
+        for forms in itertools.product(*per_mode):
+            scalar_ops("region", (lambda forms: lambda: tuple(_real_index(f) for f in forms))(forms))
+        return ops
+    rowsets = [[cl[0], cl[-1]], [cl[-1], cl[0], cl[-1]], [cl[1], cl[1]]]
+    for rows in rowsets:
+        mk_key = (lambda rows: lambda: np.array(rows, dtype=int).reshape(len(rows), N))(rows)
+        scalar_ops("subs", mk_key)
+        p = len(rows)
+        for vec in ([4.0, 0.0, 6.0][:p], [0.0, 2.0, 4.0][-p:], [0.0] * p, [4.0] * p):
+            for dt in ("float64", "int64"):
+                mk_val = (lambda vec, dt: lambda: np.array(vec, dtype=dt).reshape(len(vec), 1))(vec, dt)
+                ops.append(("subs_vector" if dt == "float64" else "subs_vector_int", "sptensor.__setitem__", w(mk_key, mk_val)))
+    if N == 1:
+        for f in _index_forms(shape[0]):
+            if f[0] in ("int", "slice"):
+                scalar_ops("bare", (lambda f: lambda: _real_index(f))(f))
+    return ops
+
+
+def _run_assign(case, ctx):
+    shape = tuple(case["shape"])
+    A = list(case["A"])
+    k0 = int(case["k0"])
+    ctx.state()
+    orders = list(itertools.permutations(range(len(A))))
+    if len(A) >= 2:
+        ctx.nontriv()
+    builders = [(list(o), (lambda o: lambda: (_mk(shape, A, o, VA),))(o)) for o in orders]
+    _run_ops(ctx, case, _assign_ops(shape, k0), builders, {"check": "assign", "shape": list(shape), "A": A, "k0": k0})
 
 
 def _binary_ops(shape):
@@ -254,6 +399,15 @@ def _binary_ops(shape):
         S[key] = R
         return canon(S, False)
     ops.append(("write_all_sparse_rhs", "sptensor.__setitem__", w_sparse_rhs))
+    # the same with the full extent of a mode named by an index list (not ascending) instead of a slice
+    full = [[["slice", None, None], ["list", list(range(s - 1, -1, -1))]] for s in shape]
+    for forms in itertools.product(*full):
+        if all(f[0] == "slice" for f in forms):
+            continue
+        def w_forms(S, R, forms=forms):
+            S[tuple(_real_index(f) for f in forms)] = R
+            return canon(S, False)
+        ops.append(("write_lists_sparse_rhs", "sptensor.__setitem__", w_forms))
     return ops
 
 
@@ -270,6 +424,8 @@ def _run_ops(ctx, case, ops, builders, narrow_key):
             ctx.tick()
             try:
                 obs = fn(*build())
+                if obs[0] == "REJECTED":
+                    ctx.count("foreign_scalar_rejected")
                 k = ("OK", _key(obs))
             except Malformed as m:
                 ctx.fail(opname, "malformed:" + str(m), f"orders={label}", variant=name, case=sub)
